@@ -159,7 +159,7 @@ static Gen gen_table(Rng& r, uint32_t nd, int periods_kind, uint64_t maxcoef) {
     g.kn.clear();
     for (uint32_t i = 0; i < nd; i++) {
       int extra = (int)(naxes[i] - g.ord[i] - 1);
-      g.kn.push_back(gen_knots(r, g.ord[i], extra, r.coin(1, 4) ? 2 : 1));
+      g.kn.push_back(gen_knots(r, g.ord[i], extra, 1));   // strictly increasing, irregular
     }
     g.coef.resize(prod);
     for (auto& c : g.coef) c = (float)(r.unit() * 2 - 1);
